@@ -67,6 +67,10 @@ M = [
  ("r-entry-panics", ["C16:ES-entry-total"], LB, "    let mut item: TokenStream = item.into();\n    match build(attr.into(), item.clone()) {", "    let mut item: TokenStream = item.into();\n    assert!(!item.is_empty());\n    match build(attr.into(), item.clone()) {"),
  ("r-debug-where-dropped", ["C03:TP-where-retained"], IT, "        impl #impl_g #trait_ for #this_ty #wheres {\n            fn fmt(&self, f: &mut ::core::fmt::Formatter) -> ::core::fmt::Result {\n                #expr", "        impl #impl_g #trait_ for #this_ty {\n            fn fmt(&self, f: &mut ::core::fmt::Formatter) -> ::core::fmt::Result {\n                #expr"),
  ("r-debug-where-other-trait", ["C03:TP-where-trait"], IT, "        &mut wcb,\n    )?;\n    let wheres = wcb.build(|ty| quote!(#ty : #trait_));\n    Ok(quote! {\n        #[automatically_derived]\n        impl #impl_g #trait_ for #this_ty #wheres {\n            fn fmt(", "        &mut wcb,\n    )?;\n    let wheres = wcb.build(|ty| quote!(#ty : ::core::clone::Clone));\n    Ok(quote! {\n        #[automatically_derived]\n        impl #impl_g #trait_ for #this_ty #wheres {\n            fn fmt("),
+ ("r-impl-args-assign-default-true", ["C09:DM-impl-args"], II, "        let mut make_assign = false;", "        let mut make_assign = true;"),
+ ("r-impl-args-forms-swapped", ["C09:DM-impl-args"], II, "                OpForm::Binary => make_binary = true,\n                OpForm::Assign => make_assign = true,", "                OpForm::Binary => make_assign = true,\n                OpForm::Assign => make_binary = true,"),
+ ("r-gate-flag-never-set", ["C01:unanalysable"], IT, "CompareOp::PartialOrd => self.partial_ord = true,", "CompareOp::PartialOrd => self.partial_ord = false,"),
+ ("r-entry-level-dropped", ["C04:ES-bounds-trace"], IT, "            if let Some(a) = self.items.get(&kind) {\n                use_bounds = a.push_bounds_to(wcb);\n            }", "            let _ = self.items.get(&kind);"),
  # benign variants: every listed property must stay silent
  ("benign-rename-local", [], IT, "let use_bounds = e.push_bounds_to(&mut wcb);\n    let mut ctor_args = Vec::new();\n    let mut clone_from_exprs = Vec::new();", "let use_bounds = e.push_bounds_to(&mut wcb);\n    let mut ctor_args = Vec::new();\n    let mut clone_from_exprs = Vec::new();\n    let _unused_marker = 0;"),
 ]
